@@ -5,8 +5,10 @@ import (
 	"encoding/base64"
 	"encoding/json"
 	"fmt"
+	"io"
 	"os"
 	"path/filepath"
+	"strings"
 
 	"verifharness/internal/core"
 	"verifharness/internal/imggen"
@@ -51,8 +53,19 @@ func c19Check(data []byte, schedule string, seed uint64, deferred bool) (kind, m
 	if exp.Panic != "" {
 		return "", "a specific loader panicked (C09's business)", false
 	}
-	s := c08Source(data, schedule, seed)
-	res := loadWith("autometa", s)
+	var rd io.Reader
+	if strings.HasPrefix(schedule, "seeker@") {
+		// an io.ReadSeeker handed over at a non-zero position: the input is what follows
+		var k int
+		fmt.Sscanf(schedule, "seeker@%d", &k)
+		whole := append(bytes.Repeat([]byte{0x89}, k), data...)
+		br := bytes.NewReader(whole)
+		_, _ = br.Seek(int64(k), io.SeekStart)
+		rd = br
+	} else {
+		rd = c08Source(data, schedule, seed)
+	}
+	res := loadWith("autometa", rd)
 	if res.Panic != nil {
 		return "panic", fmt.Sprintf("autometa.Load panicked: %v", res.Panic), false
 	}
@@ -213,6 +226,12 @@ func c19Inputs(seed int64, thorough bool) []c19Input {
 	for _, rf := range realFiles() {
 		add("real:"+rf.Name, rf.Bytes)
 	}
+	for _, f := range boundaryFiles(seed, thorough) {
+		add(f.Name, f.Bytes)
+	}
+	for _, f := range hostileSpecials() {
+		add(f.Name, f.Bytes)
+	}
 	return in
 }
 
@@ -228,7 +247,7 @@ func runC19(r *core.Run) {
 	var outcomes [3]int64
 	core.ParallelFor(len(in), 16, func(i int) {
 		x := in[i]
-		for si, sc := range []string{"all", "1", "random17"} {
+		for si, sc := range []string{"all", "1", "random17", fmt.Sprintf("seeker@%d", 1+i%23)} {
 			if sc == "1" && len(x.bytes) > 100000 {
 				continue
 			}
